@@ -170,3 +170,31 @@ package api
 //@   property C08 C04
 //@   ensures [equal-pins-agree] res ==> pin != nil && pin2 != nil && pin.Cid == pin2.Cid && pin.Type == pin2.Type && pin.MaxDepth == pin2.MaxDepth && (pin.Reference == nil <==> pin2.Reference == nil) && (pin.Reference != nil ==> *pin.Reference == *pin2.Reference) && optsEq(pin.PinOptions, pin2.PinOptions)
 //@   modifies nothing
+
+// ---- text forms of the pin type and pin mode (JSON form of the REST API, query strings): function against spec
+// function, and the two spec functions are inverse on every defined value ----
+//@ spec func pinTypeName(t PinType) string = ite(t == DataType, "pin", ite(t == MetaType, "meta-pin", ite(t == ClusterDAGType, "clusterdag-pin", ite(t == ShardType, "shard-pin", ite(t == AllType, "all", "bad-type")))))
+//@ spec func pinTypeOfName(s string) PinType = ite(s == "pin", DataType, ite(s == "meta-pin", MetaType, ite(s == "clusterdag-pin", ClusterDAGType, ite(s == "shard-pin", ShardType, ite(s == "all" || s == "", AllType, BadType)))))
+//@ func (pT PinType) String
+//@   property C08
+//@   ensures res == pinTypeName(pT)
+//@   modifies nothing
+//@ func PinTypeFromString
+//@   property C08
+//@   ensures res == pinTypeOfName(str)
+//@   modifies nothing
+//@ lemma pin_type_text_roundtrip: forall t PinType :: (t == BadType || t == DataType || t == MetaType || t == ClusterDAGType || t == ShardType || t == AllType) ==> pinTypeOfName(pinTypeName(t)) == t
+//@   property C08
+
+//@ spec func pinModeName(m PinMode) string = ite(m == PinModeDirect, "direct", "recursive")
+//@ spec func pinModeOfName(s string) PinMode = ite(s == "direct", PinModeDirect, PinModeRecursive)
+//@ func (pm PinMode) String
+//@   property C08
+//@   ensures res == pinModeName(pm)
+//@   modifies nothing
+//@ func PinModeFromString
+//@   property C08 C11
+//@   ensures res == pinModeOfName(s)
+//@   modifies nothing
+//@ lemma pin_mode_text_roundtrip: forall m PinMode :: (m == PinModeRecursive || m == PinModeDirect) ==> pinModeOfName(pinModeName(m)) == m
+//@   property C08
